@@ -235,6 +235,20 @@ PLANS = {
                 "analysis must leave the tokenizer usable. distinct_nontrivial = distinct histories that completed with all probes equal",
         "assumptions": COMMON_ASSUMPTIONS + ["the fresh tokenizer of the same tree is the executable model"],
     },
+    "C09": lambda tier: {
+        "level": "exploration",
+        "stages": [main_stage(40, 300, tier)],
+        "require": ["split_tokens_checked", "unsplit_tokens_checked", "on_demand_splits_checked", "split_texts_where_normalised_length_differs"],
+        "rule": "seeded worlds whose declared A/B units concatenate to the key (system->system, user->system, user->user references in "
+                "numeric, U-prefixed and inline notation; units of mixed byte width; 0-4 user dictionaries; random input-text / OOV stacks, no "
+                "path-rewrite plugins) x texts made of compound keys in plain / upper-case / full-width spelling plus filler; the same text "
+                "is analysed in modes C, A, B and tokens are matched on normalised-text positions: every C boundary is kept; a C token "
+                "declaring >=2 units yields exactly those word ids (from the source model) with ranges = key lengths, last unit to the parent "
+                "end, partitioning the parent's original range; other tokens are unchanged; split_into of each C morpheme into a fresh and "
+                "into a recycled output list equals the direct analysis (>=2 units) or reports nothing (no units). distinct_nontrivial = "
+                "distinct (world,text) containing at least one split token that passed",
+        "assumptions": COMMON_ASSUMPTIONS + ["words declaring exactly one unit are not judged for the split API (statement speaks of >=2 or none)"],
+    },
 }
 
 
